@@ -1217,33 +1217,64 @@ def _memory_port_setup(ctx, mg):
 
 def _memory_init(ctx, mm):
     """C01.n: the initial contents handed to $readmemh are the init words themselves, in order, in hexadecimal, loaded into the
-    declared memory under the name the logic uses (the simulator starts from memory.init verbatim)."""
+    declared memory under the name the logic uses (the simulator starts from memory.init verbatim).  Decided on the text: the
+    printer is interpreted (lxs/pyconst.py) on model memories up to and including its initialisation block; the recorded data file
+    is parsed back and compared with the init words."""
+    from ..pyconst import NS, Native, Interp
     mg = mm.func("_memory_generate_verilog")
-    blocks = [n for n in ast.walk(mg) if isinstance(n, ast.If) and norm(n.test) in ("memory.init is not None", "not memory.init is None")]
-    ctx.need(len(blocks) == 1, "_memory_generate_verilog: `if memory.init is not None:` block not found")
-    blk = blocks[0]
-    loops = [n for n in blk.body if isinstance(n, ast.For)]
-    ok = len(loops) == 1 and norm(loops[0].iter) == "memory.init" and isinstance(loops[0].target, ast.Name)
-    ctx.ob("C01.n", MEM, "_memory_generate_verilog", "one line per init word, in order", ok, "" if ok else "init loop changed", blk)
-    if not ok:
-        return
-    var = loops[0].target.id
-    fm = [c for c in ast.walk(loops[0]) if isinstance(c, ast.Call) and isinstance(c.func, ast.Attribute) and c.func.attr == "format"]
-    ok = len(fm) == 1 and len(fm[0].args) == 1
-    arg = fm[0].args[0] if ok else None
-    # the word itself, or masked to the full memory width (2**width - 1 / (1 << width) - 1)
-    full = {f"{var} & 2 ** memory.width - 1", f"{var} & (1 << memory.width) - 1", f"2 ** memory.width - 1 & {var}", f"(1 << memory.width) - 1 & {var}"}
-    ok = ok and (norm(arg) == var or norm(arg) in full)
-    ctx.ob("C01.n", MEM, "_memory_generate_verilog", "each line prints the init word itself (at most masked to the memory width)", ok,
-           "" if ok else f"`{norm(arg) if arg is not None else '?'}` is printed instead of `{var}`: the loaded contents differ from memory.init, which is what "
-                         f"the simulator starts from", fm[0] if fm else loops[0])
-    fdef = [n for n in blk.body if isinstance(n, ast.Assign) and isinstance(n.value, ast.JoinedStr)]
-    txt = norm(fdef[0].value) if fdef else ""
-    ok = bool(fdef) and txt.endswith("x}}\\n'") and "{{:0" in txt
-    ctx.ob("C01.n", MEM, "_memory_generate_verilog", "hexadecimal, zero padded, one word per line", ok, "" if ok else f"formatter = {txt}", fdef[0] if fdef else blk)
-    rm = [norm(n) for n in ast.walk(blk) if isinstance(n, ast.JoinedStr) and "$readmemh" in norm(n)]
-    ok = len(rm) == 1 and "{memory_filename}" in rm[0] and "{_get_name(memory)}" in rm[0]
-    ctx.ob("C01.n", MEM, "_memory_generate_verilog", "$readmemh(<data file>, <the declared memory>)", ok, "" if ok else f"{rm}", blk)
-    af = [n for n in ast.walk(blk) if isinstance(n, ast.Call) and norm(n.func) == "add_data_file"]
-    ok = len(af) == 1 and len(af[0].args) == 2 and norm(af[0].args[1]) == "content"
-    ctx.ob("C01.n", MEM, "_memory_generate_verilog", "the data file holds the accumulated lines", ok, "" if ok else f"{[norm(a) for a in af]}", blk)
+    idx = [k for k, st in enumerate(mg.body) if any(isinstance(n, ast.Constant) and isinstance(n.value, str) and "$readmemh" in n.value
+                                                   for n in ast.walk(st))]
+    ctx.need(len(idx) == 1, "_memory_generate_verilog: the statement that prints $readmemh was not found (exactly once) at the top level")
+    blk = mg.body[idx[0]]
+    bad = {"lines": None, "words": None, "hex": None, "load": None, "file": None}
+    n_ev = 0
+    for width, words in ((8, [0, 1, 0x7f, 0xff, 0x10]), (12, [0xabc, 1, 0, 0xfff]), (32, [0xdeadbeef, 0, 0x12345678]), (10, [0x3ff, 0x200, 5]),
+                         (16, list(range(0, 0x10000, 0x1111)))):
+        files = []
+
+        def add_data_file(fn, content, files=files):
+            files.append((fn, content))
+            return fn
+        port = NS(clock="sys_clk", mode="WRITE_FIRST", we_granularity=0, we=None, re=None, async_read=False,
+                  adr=NS(nm="adr"), dat_r=NS(nm="dat_r"), dat_w=NS(nm="dat_w"))
+        mem = NS(init=list(words), width=width, depth=32, ports=[port], name_override="mem", __cls__=("Memory",))
+        env = {"name": "top", "memory": mem, "namespace": NS(get_name=Native(lambda m_: "the_mem")), "add_data_file": Native(add_data_file),
+               "verilog_printexpr": Native(lambda ns, e: (e.get("nm") if isinstance(e, NS) else str(e), set())), "_tab": "    ",
+               "READ_FIRST": "READ_FIRST", "WRITE_FIRST": "WRITE_FIRST", "NO_CHANGE": "NO_CHANGE"}
+        it = Interp(env, exact=True, funcs={f.name: f for f in mm.tree.body if isinstance(f, ast.FunctionDef)})
+        try:
+            it.run(mg.body[:idx[0] + 1])
+        except Exception as ex:         # interpreter limit
+            ctx.need(False, f"_memory_generate_verilog: the initialisation block cannot be interpreted ({type(ex).__name__}: {ex})")
+        n_ev += 1
+        text = it.env.get("r")
+        ctx.need(isinstance(text, str), "_memory_generate_verilog: printed text is not a constant string after the initialisation block")
+        tag = f"width {width}, init {[hex(w) for w in words]}"
+        if len(files) != 1:
+            bad["file"] = bad["file"] or f"{tag}: {len(files)} data files recorded"
+            continue
+        fname, content = files[0]
+        lines = content.split("\n")
+        if lines and lines[-1] == "":
+            lines = lines[:-1]
+        if len(lines) != len(words):
+            bad["lines"] = bad["lines"] or f"{tag}: the data file has {len(lines)} lines for {len(words)} words"
+            continue
+        try:
+            got = [int(x, 16) for x in lines]
+        except ValueError:
+            bad["hex"] = bad["hex"] or f"{tag}: data file lines {lines[:3]} are not hexadecimal numbers"
+            continue
+        if got != list(words):
+            k = next(i for i in range(len(words)) if got[i] != words[i])
+            bad["words"] = bad["words"] or (f"{tag}: word {k} is written as {lines[k]!r} = {got[k]:#x}, memory.init[{k}] = {words[k]:#x}: the loaded "
+                                            f"contents differ from what the simulator starts from")
+        if f'$readmemh("{fname}",the_mem)' not in text.replace(" ", ""):
+            bad["load"] = bad["load"] or f"{tag}: no `$readmemh(\"{fname}\", the_mem)` in the printed text"
+    ctx.analysed["paths"] += n_ev
+    ctx.ob("C01.n", MEM, "_memory_generate_verilog", "one line per init word, in order", bad["lines"] is None, bad["lines"] or "", blk)
+    ctx.ob("C01.n", MEM, "_memory_generate_verilog", "each line prints the init word itself (at most masked to the memory width)", bad["words"] is None,
+           bad["words"] or "", blk)
+    ctx.ob("C01.n", MEM, "_memory_generate_verilog", "hexadecimal, one word per line", bad["hex"] is None, bad["hex"] or "", blk)
+    ctx.ob("C01.n", MEM, "_memory_generate_verilog", "$readmemh(<data file>, <the declared memory>)", bad["load"] is None, bad["load"] or "", blk)
+    ctx.ob("C01.n", MEM, "_memory_generate_verilog", "the data file holds the accumulated lines", bad["file"] is None, bad["file"] or "", blk)
